@@ -128,6 +128,14 @@ func alphabet(server bool) []op {
 					}})
 				} // (the server refuses a request without an id as malformed: that is not "an absent mode")
 			}
+			if !server {
+				// switching to the id the fresh model's placeholder active mode carries: it names no mode, so this is
+				// a switch to a mode that does not exist - however much it "is already the active one"
+				ops = append(ops, op{name: "ChangeActiveMode(<empty id>)", kind: "change", arg: id, run: func(x *sys) error {
+					_, err := x.m.ChangeActiveMode("")
+					return err
+				}})
+			}
 			continue
 		}
 		for _, variant := range []string{"normal=true", "normal=false", "title", "mask(title),normal=true", "mask(normal)=true", "mask(normal,title)=true", "mask(title,normal)=true", "upsert,mask(title)"} {
